@@ -31,8 +31,14 @@ func zzObserve(ctx context.Context, s *Store[*zh.Hdr], chain []*zh.Hdr) zzView {
 
 // zzHistory applies L operations (append of a sub-run, sync, deletion of one header at either end) and
 // returns them so that the same history can be applied to a reference store.
+// zzHeadSideDeletes: commit-log index ranges [before, after) of the head-side deletions of two headers
+// performed on the main store (used for the known-finding class of the crash unit).
+var zzHeadSideDeletes [][2]int
+
 func zzHistory(ctx context.Context, s *Store[*zh.Hdr], chain []*zh.Hdr, K, L int, d *zzMemDS, faults bool) []func(*Store[*zh.Hdr]) {
 	var ops []func(*Store[*zh.Hdr])
+	main := s
+	zzHeadSideDeletes = nil
 	for op := 0; op < L; op++ {
 		if faults && zz.Bool("fault.here") {
 			// a window of 1..3 consecutive failing writes starting with the next write attempt
@@ -52,6 +58,7 @@ func zzHistory(ctx context.Context, s *Store[*zh.Hdr], chain []*zh.Hdr, K, L int
 			f = func(s *Store[*zh.Hdr]) { zz.Assert(s.Sync(ctx) == nil, "Sync succeeds") }
 		case 2:
 			tailSide := zz.Bool("del.tailside")
+			n := uint64(1 + zz.Choice("del.n", 2)) // one or two headers
 			f = func(s *Store[*zh.Hdr]) {
 				zz.Assert(s.Sync(ctx) == nil, "Sync succeeds")
 				head, e1 := s.Head(ctx)
@@ -59,10 +66,20 @@ func zzHistory(ctx context.Context, s *Store[*zh.Hdr], chain []*zh.Hdr, K, L int
 				if e1 != nil || e2 != nil {
 					return
 				}
+				if head.H-tail.H+1 < n {
+					return
+				}
 				if tailSide {
-					_ = s.DeleteRange(ctx, tail.H, tail.H+1) // may fail part-way when a write fault is armed
+					_ = s.DeleteRange(ctx, tail.H, tail.H+n) // may fail part-way when a write fault is armed
 				} else {
-					_ = s.DeleteRange(ctx, head.H, head.H+1)
+					before := len(d.log)
+					_ = s.DeleteRange(ctx, head.H+1-n, head.H+1)
+					if n > 1 {
+						zz.Reach("delete-head-side-2")
+						if s == main {
+							zzHeadSideDeletes = append(zzHeadSideDeletes, [2]int{before, len(d.log)})
+						}
+					}
 				}
 				zz.Reach("delete")
 			}
@@ -166,6 +183,17 @@ func ZzC06() {
 		// crash: the datastore keeps an arbitrary prefix of the commit log (each entry atomic)
 		k := zz.Choice("crash.at", len(d.log)+1)
 		d2 := zzImage(d.log, k)
+		// known finding: on a datastore that ignores the context's write batch the per-key deletes of a
+		// head-side DeleteRange are separate writes, lowest height first, with the head pointer moved last
+		inside := false
+		for _, r := range zzHeadSideDeletes {
+			if k > r[0] && k < r[1] {
+				inside = true
+			}
+		}
+		if zz.Known("C06-crash-inside-head-side-delete-plain-ds", cfg.flavour == 0 && inside) {
+			zz.Reach("crash-inside-head-side-delete")
+		}
 		s2, err := NewStore[*zh.Hdr](zzWrapDS(d2, cfg.flavour), WithWriteBatchSize(cfg.batch), WithStoreCacheSize(cfg.cache), WithIndexCacheSize(cfg.cache))
 		zz.Assert(err == nil, "NewStore succeeds")
 		zz.Reach("crashed")
